@@ -371,7 +371,8 @@ def run(ctx):
     for name in ctx.my(sites):
         for rep in range(reps + 1):
             a = "defaults" if rep == 0 else random_assignment(rng)
-            for v in [0, -0.0, 1, -3.5, 1e-3, 250.0, round(rng.uniform(0.01, 400), 3), -round(rng.uniform(0.01, 40), 3)]:
+            # (59, 32, 15, 36, 12: numbers that coincide with the raw base-unit values of common defaults - 15 C = 59 F, 1 yd = 36 in)
+            for v in [0, -0.0, 1, -3.5, 1e-3, 250.0, round(rng.uniform(0.01, 400), 3), -round(rng.uniform(0.01, 40), 3), 59, 32.0, 15, 36, 12.0]:
                 if not ctx.time_left():
                     break
                 check_site(ctx, {"kind": "site", "site": name, "value": v, "assignment": a})
